@@ -142,8 +142,11 @@ func BuildCatalogue() []*Request {
 		return buildReq(id, nil, []*Message{M("Ping", F("msg", 1, "string"))}, svc)
 	}
 	H := func(n string) *Header { return &Header{Name: n, Type: "string"} }
+	// one helper per helper NAME (service headers first, then method headers): all of these build
 	add(hdrReq("bhdrtwo", nil, []*Header{H("X-Tenant")}, []*Header{H("X-Tenant")}))
 	add(hdrReq("bhdralias", []*Header{H("X-Trace")}, []*Header{H("Trace")}, nil))
+	// two DIFFERENT headers with one helper name: only the first gets a helper (a behaviour question, not a build failure)
+	add(hdrReq("bhdrsamefn", []*Header{H("X-Api-Key"), H("Api-Key")}, []*Header{H("X-ApiKey"), H("X-Other")}, []*Header{H("X-Other"), H("Api-Key")}))
 	add(hdrReq("bhdrcall", []*Header{H("X-CallTrace")}, []*Header{H("X-Trace")}, nil)) // WithEchoCallTrace twice (client option / call option)
 	add(hdrReq("bhdrbuiltin", []*Header{H("Content-Type")}, nil, nil))
 	add(hdrReq("bhdrident", nil, []*Header{H("X-Api.Key")}, nil))
